@@ -5,7 +5,7 @@ sys.path.insert(0, os.path.dirname(os.path.dirname(os.path.abspath(__file__))))
 from vlib import core
 hs = core.load_registry()
 T = {"C03": "o3_1_strokes_{-,|,+} (3 queries over 4^8 neighbourhoods)",
-     "C05": "o5_t_edge_* (20), o5_t_corner_* (8) - border cells of a box emit exactly the border strokes",
+     "C05": "o5_t_edge_* (20), o5_t_corner_* (8), o5_t_rounded_* (4) - border cells of a box emit exactly the border strokes",
      "C09": "o9_5_run_cell_* (21 run characters)",
      "C12": "o12_2_contained_* (one query per table character, 120), o12_3_circle_catalogue (entry index and placement symbolic)",
      "C13": "o13_1_extent_radius (1), o13_2a_offset_placement_free_* (22), o13_2_cells_near_circle_* (22)",
